@@ -119,6 +119,9 @@ func Run(c *fw.Ctx) {
 				}
 			}
 		}
+		for role := roleNone; role <= roleAdmin; role++ {
+			add(caseSpec{Role: role, Sel: "own", State: "session", Content: c.Seed, Mode: "txflow", Only: only})
+		}
 		if c.Thorough() {
 			for role := roleR; role <= roleAdmin; role++ {
 				for i := 0; i < 3; i++ {
@@ -247,6 +250,10 @@ func runCase(c *fw.Ctx, data []byte) {
 	r := &caseRun{c: c, cs: cs, e: e, specs: buildSpecs(), valid: map[string]bool{}, served: map[string]map[string][]string{}, sigs: map[string]bool{}}
 	if cs.Mode == "concurrent" {
 		r.concurrent(data)
+		return
+	}
+	if cs.Mode == "txflow" {
+		r.txflows(data)
 		return
 	}
 
